@@ -22,7 +22,7 @@
      %VAR variable forms   %WILD * ** ?         %TILDE ~ forms   %KEY map/option key
      %RSIGN < > >> <>      %FD fd on the left   %FDN fd or - after &   %IDX literal index
      %EMAP empty map       %PARAMS lambda signature between the bars
-     %BSEP separator inside a braced list
+     %BSEP separator (with comma) inside a braced list   %BWS separator without comma
 
    Validity is a claim of this module about the language; the executors CHECK it by parsing
    every generated program completely (a program with a parse error is a generator defect and
@@ -51,7 +51,8 @@ Nest(d, alts) == IF d > 0 THEN alts ELSE {}
      Map      = EMAP | "[" [WS] Pairs [WS] "]"   Pairs = Pair { WS Pair }
      Pair     = & KEY [= [WS] [Cmpd]]
      Lambda   = "{" WS [ "|" PARAMS "|" WS ] Chunk "}" | "{|" PARAMS "|" Chunk "}"
-     Braced   = "{" BElem { BSEP BElem } "}"     BElem = empty | BWB | Cmpd               *)
+     Braced   = "{" BElem { BSEP BElem } "}" | "{" BElemNE BWS BElem "}"
+     BElem    = empty | BElemNE                  BElemNE = BWB | Cmpd                     *)
 LambdaAlts(d) ==
   { <<T("{"), T("%WS"), NT("Chunk", d - 1), T("}")>>,
     <<T("{|"), T("%PARAMS"), T("|"), NT("Chunk", d - 1), T("}")>>,
@@ -60,7 +61,10 @@ BracedAlts(d) ==
   { <<T("{"), NT("BElem", d - 1), T("}")>>,
     <<T("{"), NT("BElem", d - 1), T("%BSEP"), NT("BElem", d - 1), T("}")>>,
     <<T("{"), NT("BElem", d - 1), T("%BSEP"), NT("BElem", d - 1), T("%BSEP"),
-      NT("BElem", d - 1), T("}")>> }
+      NT("BElem", d - 1), T("}")>>,
+    \* a separator without a comma only after a non-empty element ("{" followed by
+    \* whitespace opens a lambda)
+    <<T("{"), NT("BElemNE", d - 1), T("%BWS"), NT("BElem", d - 1), T("}")>> }
 ListAlts(d) ==
   { <<T("["), T("]")>>, <<T("["), NT("Elems", d - 1), T("]")>>,
     <<T("["), T("%WS"), NT("Elems", d - 1), T("%WS"), T("]")>> }
@@ -114,9 +118,10 @@ Alts(x) ==
            <<T("&"), T("%KEY"), T("="), T("%WS"), NT("Cmpd", d)>>,
            <<T("&"), T("%KEY"), T("=")>>, <<T("&"), T("%KEY")>> }
     [] x.s = "BElem" -> { << >>, <<T("%BWB")>>, <<NT("Cmpd", d)>> }
+    [] x.s = "BElemNE" -> { <<T("%BWB")>>, <<NT("Cmpd", d)>> }
 
 NTNames == {"Chunk", "Pipes", "Pipeline", "Args", "Cmpd", "Idx", "IdxNB", "Index", "Elems",
-            "Pairs", "Pair", "BElem"}
+            "Pairs", "Pair", "BElem", "BElemNE"}
 \* constant-level table of the alternatives (TLCEval: TLC materialises it once)
 AltTable == TLCEval([s \in NTNames |-> TLCEval([d \in 0..D |-> TLCEval(Alts(NT(s, d)))])])
 
